@@ -20,17 +20,22 @@ ASSUMPTIONS = [
 META = {
     "text": "Theorems (Coq, closed under the global context): C12_counting_exact - the running figure of "
             "CountingContext equals estimateSize of the PopData kept so far, for every candidate sequence and mutator "
-            "verdict; C12_generated_fits_partial - the kept PopData passes assertPopDataFits while fewer than 256 "
-            "payloads of each kind are kept (PARTIAL: the unbounded statement is false, C12_counting_prefix_refuted "
-            "exhibits the 256th ATV that fits exactly and makes the result one byte too large because canFit prices the "
-            "length prefix of the current count); C12_generate_pure - add temporary block / execute / un-execute in "
-            "reverse / remove returns to the initial state given the inverse laws. Tie to the code: direct oracle on "
-            "the real generatePopData after generated histories under small and default limits (counts, estimateSize "
-            "= encoded size <= limit, stateless checkPopData, nothing already on the active chain, all three trees "
-            "identical before/after) and the REAL next block carrying exactly the result: header, body and "
-            "setState succeed on the same instance, which then keeps going.",
+            "verdict; C12_generated_fits - with canFit as coded now (the growth of the kind's length prefix, "
+            "singleBEValueSize(count+1) - singleBEValueSize(count), is priced) whatever filterInvalidPayloads keeps "
+            "passes assertPopDataFits, no bound on the counts; C12_counting_prefix_refuted - documentation: canFit "
+            "before the repair let the 256th payload that fits exactly overshoot by one byte (confirmed on the real "
+            "library: estimate=16907, max=16906, witness corpus/C12/canfit_prefix_256.txt); C12_generated_applies - on "
+            "the add-temp-block machine every kept payload was executed in the final order, so a block body carrying "
+            "exactly the generated list executes completely on the same tip state and reaches the state the temporary "
+            "block had; C12_generate_pure - add temporary block / execute / un-execute in reverse / remove returns to "
+            "the initial state given the inverse laws. Tie to the code: direct oracle on the real generatePopData after "
+            "generated histories under small and default limits (counts, estimateSize = encoded size <= limit, "
+            "stateless checkPopData, nothing already on the active chain, all three trees identical before/after) and "
+            "the REAL next block carrying exactly the result: header, body and setState succeed on the same "
+            "instance, which then keeps going.",
     "note": "Trusted: Coq kernel, C++ harness and World interpreter. Stateful validity of the result "
-            "(generated_applies) is observed on the implementation, not proved; sizes are abstract numbers in the "
+            "is proved on the abstract machine only (exec deterministic; that the real commands form such a machine "
+            "is C01/C04's) and observed on the implementation; sizes are abstract numbers in the "
             "counting model (per-entity estimateSize = encoded length is C11's). Known finding F10 is exercised in "
             "every run (save/reload steps) and printed as KNOWN-FINDING.",
     "technique": "Coq proof (size accounting, inverse law) + direct oracle on generated histories",
